@@ -204,6 +204,23 @@ def run_accept(sc):
         want = p_fixed and not cbits.any()
     else:
         want = p_fixed and sc["cmask"] == "fixed_equal"
+    if sc["pmask"] == "fixed":
+        # preparing FLAT data (in the grid's own flattening order) under the fixed mask of a structured grid: exactly
+        # that mask, every unmasked value at its cell - for every layout
+        fld = ma.field([1.0, 10.0, 100.0, 1000.0][: ma.dim + 1])
+        for payload in (fld.reshape(-1, order=ma.order).copy(), tools.UNITS.Quantity(fld.reshape(-1, order=ma.order).copy(), "m")):
+            try:
+                pm = tools.prepare(payload, Info(time=dt(0), grid=ga, units="m", mask=pbits)).magnitude
+            except Exception as e:      # noqa: BLE001
+                v("mask-prepare", "flat-" + type(e).__name__, f"{desc(sc)}: prepare(flat data) raised {type(e).__name__}: {e}")
+                return viol
+            if pm.shape != (1,) + shape or not np.ma.isMaskedArray(pm) or not np.array_equal(np.ma.getmaskarray(pm)[0], pbits):
+                v("mask-prepare", "flat-mask", f"{desc(sc)}: flat data prepared under a fixed mask does not carry exactly that mask "
+                  f"(grid order {ma.order}, axes reversed {ma.rev})")
+                return viol
+            if not np.allclose(np.ma.getdata(pm)[0][~pbits], fld[~pbits]):
+                v("mask-prepare", "flat-values", f"{desc(sc)}: flat data prepared under a fixed mask: values at the wrong cells")
+                return viol
     out = Output(name="src", info=Info(time=dt(0), grid=ga, units="m", mask=pmask))
     inp = Input(name="dst", info=Info(time=dt(0), grid=gb, units="m", mask=cmask))
     out >> inp
